@@ -114,11 +114,12 @@ def exhaustive_small_trees():
 
             def build(x, top=False):
                 cnt[0] += 1
-                ln = None if top else Fraction(3 * cnt[0] + 1, 8)
+                me = cnt[0]
+                ln = None if top else Fraction(3 * me + 1, 8)
                 if isinstance(x, str):
                     return [x, ln, []]
                 kids = [build(c) for c in x]
-                return ["" if top else f"n{cnt[0]}", ln, kids]
+                return ["" if top else f"n{me}", ln, kids]
 
             out.append(build(sh, True))
     return out
@@ -304,11 +305,12 @@ def real_node_at(node, path):
 
 def snapshot(node):
     """deep structural snapshot used for the argument-unmodified check
-    (names, name_loaded, params, child structure; cache attributes are ignored)"""
+    (names, name_loaded, params, child structure; cache attributes are ignored; a param whose value
+    is None is the same as an absent one: PhyloNode.__init__ adds 'length': None to a params dict)"""
     return (
         node.name,
         node.name_loaded,
-        tuple(sorted((k, repr(v)) for k, v in node.params.items())),
+        tuple(sorted((k, repr(v)) for k, v in node.params.items() if v is not None)),
         id(node),
         None if node._parent is None else id(node._parent),
         tuple(snapshot(c) for c in node.children),
